@@ -110,6 +110,8 @@ def run(chk):
     from .c53 import _couplings_nf
 
     _couplings_nf(chk, src, rule="qed-coupling-steps-in-one-flavour-number", methods=("compute_aem_list",))
+    n_ord = kern.qed_product_order(chk, "qed-kernel-keeps-the-qcd-product-order")
+    chk.floor("product-order instances", n_ord, 4)
     n_asm = _assembly(chk, src)
     chk.floor("assembly instances", n_asm, 4)
     chk.floor("instances", n_inst, 32 + 24)
